@@ -926,3 +926,14 @@ pub fn gen_hidden(t: &mut Tape) -> HiddenCase {
     let value = encrypt_raw(attr, &pt, &secret, &rv);
     HiddenCase { attr, value, secret, rv, crafted: Some(total) }
 }
+
+/// give a data message an exact Length field if it has none
+pub fn with_exact_length(m: SMsg) -> SMsg {
+    match m {
+        SMsg::Data { prio, length: None, tunnel, session, ns_nr, offset, data } => {
+            let l = 6 + 2 + if ns_nr.is_some() { 4 } else { 0 } + if offset.is_some() { 2 } else { 0 } + data.len();
+            SMsg::Data { prio, length: Some(l as u16), tunnel, session, ns_nr, offset, data }
+        }
+        m => m,
+    }
+}
